@@ -287,3 +287,442 @@ Proof.
   unfold has_token_record. rewrite H2. tauto.
 Qed.
 
+(** * One step: acceptance conditions and effects *)
+Lemma is_nil_false r : is_nil r = false <-> r <> [].
+Proof. destruct r; simpl; split; intro H; congruence. Qed.
+
+(* goal shape: (X = RTrue <-> P) /\ (X = RTrue -> Q) *)
+Ltac refused :=
+  split; [split; [discriminate|let H := fresh in intro H; exfalso; decompose [and ex] H; clear H; subst; try congruence]|discriminate].
+Ltac granted := split; [split; [intros _|reflexivity]|intros _; try reflexivity].
+
+Section StepLemmas.
+Variable valid_id : bytes -> bool.
+Notation stp := (step valid_id).
+
+Lemma init_accept s e c a : ev_op e = OInit c a ->
+  (fst (stp s e) = RTrue <-> valid_id a = true /\ admin_of s c = None) /\
+  (fst (stp s e) = RTrue -> snd (stp s e) = set_admin s c a).
+Proof.
+  intro E. unfold step. rewrite E. unfold init_admin, admin_of.
+  destruct (valid_id a); simpl; [|refused].
+  destruct (get_admin s c); simpl; [refused|granted; auto].
+Qed.
+
+Lemma transfer_accept s e c a k : ev_op e = OTransfer c a k ->
+  (fst (stp s e) = RTrue <-> valid_id a = true /\ exists a0, admin_of s c = Some a0 /\ ev_sig e a0 k = SigOk) /\
+  (fst (stp s e) = RTrue -> snd (stp s e) = set_admin s c a).
+Proof.
+  intro E. unfold step. rewrite E. unfold transfer, admin_of, ev_sig.
+  destruct (valid_id a); simpl; [|refused].
+  destruct (get_admin s c) as [a0|]; simpl; [|refused].
+  destruct (e_sig (ev_env e) a0 k) eqn:S; simpl; [granted; repeat split; eauto|refused|refused].
+Qed.
+
+Lemma admin_check s e c a k :
+  (exists a0, get_admin s c = Some a0 /\ bytes_eqb a0 a = true /\ e_sig (ev_env e) a k = SigOk) <-> admin_proved s e c a k.
+Proof.
+  unfold admin_proved, admin_of, ev_sig. split.
+  - intros [a0 [H1 [H2 H3]]]. apply bytes_eqb_eq in H2. subst. auto.
+  - intros [H1 H2]. exists a. rewrite bytes_eqb_refl. auto.
+Qed.
+
+Lemma funcs_accept s e c a r fns k : ev_op e = OAssignFuncs c a r fns k ->
+  (fst (stp s e) = RTrue <-> r <> [] /\ admin_proved s e c a k) /\
+  (fst (stp s e) = RTrue -> snd (stp s e) = set_funcs s (c, r) (dedup_sort (opt_list (get_role_func s c r) ++ fns))).
+Proof.
+  intro E. unfold step. rewrite E. unfold assign_funcs. rewrite <- admin_check, <- is_nil_false.
+  destruct (is_nil r); simpl; [refused|].
+  destruct (get_admin s c) as [a0|]; simpl; [|refused].
+  destruct (bytes_eqb a0 a) eqn:B; simpl; [|refused].
+  destruct (e_sig (ev_env e) a k) eqn:S; simpl; [granted; repeat split; eauto|refused|refused].
+Qed.
+
+Lemma all_valid_spec ps : existsb (fun p => negb (valid_id p)) ps = false <-> forall p, In p ps -> valid_id p = true.
+Proof.
+  induction ps as [|q ps IH]; simpl.
+  - split; [intros _ p []|reflexivity].
+  - rewrite orb_false_iff, IH, negb_false_iff. split.
+    + intros [H1 H2] p [->|Hp]; auto.
+    + intro H. split; [apply H; left; reflexivity|intros p Hp; apply H; right; exact Hp].
+Qed.
+
+Lemma ids_accept s e c a r ps k : ev_op e = OAssignIds c a r ps k ->
+  (fst (stp s e) = RTrue <-> r <> [] /\ (forall p, In p ps -> valid_id p = true) /\ admin_proved s e c a k) /\
+  (fst (stp s e) = RTrue -> snd (stp s e) = fold_left (assign_one (ev_now e) c r) ps s).
+Proof.
+  intro E. unfold step. rewrite E. unfold assign_ids. rewrite <- admin_check, <- is_nil_false, <- all_valid_spec.
+  destruct (is_nil r); simpl; [refused|].
+  destruct (existsb (fun p => negb (valid_id p)) ps); simpl; [refused|].
+  destruct (get_admin s c) as [a0|]; simpl; [|refused].
+  destruct (bytes_eqb a0 a) eqn:B; simpl; [|refused].
+  destruct (e_sig (ev_env e) a k) eqn:S; simpl; [granted; repeat split; eauto|refused|refused].
+Qed.
+
+Lemma delegate_guard s e c from to r period lvl k : e_now e < 4294967296 ->
+  fst (delegate valid_id s e c from to r period lvl k) = RTrue ->
+  lvl <= 127 /\ period <= 4294967295 /\ e_now e + period < 4294967296.
+Proof.
+  intros Hn. unfold delegate.
+  destruct (del_param_too_large lvl period) eqn:P; [discriminate|].
+  apply del_param_too_large_spec in P. destruct P as [P1 P2].
+  rewrite (del_entry_ok_of_param lvl period P1 P2).
+  rewrite (N.mod_small period 4294967296) by lia.
+  destruct (del_overflow period (e_now e)) eqn:O; [discriminate|].
+  apply del_overflow_spec in O; [|lia|exact Hn]. intros _. auto.
+Qed.
+
+Lemma delegate_result s e c from to r period lvl k :
+  e_now e < 4294967296 -> lvl <= 127 -> period <= 4294967295 -> e_now e + period < 4294967296 ->
+  delegate valid_id s e c from to r period lvl k =
+  match e_sig e from k with
+  | SigErr => (RErr, s)
+  | SigFalse => (RFalse, s)
+  | SigOk =>
+      if negb (valid_id to) then (RErr, s) else
+      match get_auth_token s (e_now e) c from r, get_auth_token s (e_now e) c to r with
+      | Some ft, None =>
+          if (t_level ft =? DELEGATOR_LEVEL) && del_allowed lvl (t_level ft) (e_now e + period) (t_expire ft)
+          then (RTrue, set_deleg s (c, to) (upd_status r from lvl (e_now e + period) (opt_list (s_deleg s (c, to)))))
+          else (RFalse, s)
+      | _, _ => (RFalse, s)
+      end
+  end.
+Proof.
+  intros Hn H1 H2 H3. unfold delegate.
+  assert (P : del_param_too_large lvl period = false) by (apply del_param_too_large_spec; auto).
+  rewrite P, (del_entry_ok_of_param lvl period H1 H2).
+  rewrite (N.mod_small period 4294967296) by lia.
+  rewrite (N.mod_small lvl 256) by lia.
+  assert (O : del_overflow period (e_now e) = false) by (apply del_overflow_spec; lia).
+  rewrite O. rewrite (N.mod_small (e_now e + period) 4294967296) by lia. reflexivity.
+Qed.
+
+Lemma delegate_accept s e c from to r period lvl k : Inv s -> ev_now e < 4294967296 ->
+  ev_op e = ODelegate c from to r period lvl k ->
+  (fst (stp s e) = RTrue <-> ev_delegate valid_id s e c from to r (ev_now e + period) lvl) /\
+  (fst (stp s e) = RTrue -> snd (stp s e) =
+     set_deleg s (c, to) (upd_status r from lvl (ev_now e + period) (opt_list (s_deleg s (c, to))))).
+Proof.
+  intros I Hn E. unfold step. rewrite E. unfold ev_now in *.
+  assert (G : fst (delegate valid_id s (ev_env e) c from to r period lvl k) = RTrue ->
+          ev_delegate valid_id s e c from to r (e_now (ev_env e) + period) lvl /\
+          snd (delegate valid_id s (ev_env e) c from to r period lvl k) =
+            set_deleg s (c, to) (upd_status r from lvl (e_now (ev_env e) + period) (opt_list (s_deleg s (c, to))))).
+  { intro H. destruct (delegate_guard s (ev_env e) c from to r period lvl k Hn H) as [G1 [G2 G3]].
+    rewrite (delegate_result s (ev_env e) c from to r period lvl k Hn G1 G2 G3) in *.
+    destruct (e_sig (ev_env e) from k) eqn:S; try discriminate.
+    destruct (valid_id to) eqn:V; simpl in *; try discriminate.
+    destruct (get_auth_token s (e_now (ev_env e)) c from r) as [ft|] eqn:GF; try discriminate.
+    destruct (get_auth_token s (e_now (ev_env e)) c to r) as [tt|] eqn:GT; try discriminate.
+    destruct ((t_level ft =? DELEGATOR_LEVEL) && del_allowed lvl (t_level ft) (e_now (ev_env e) + period) (t_expire ft)) eqn:C; try discriminate.
+    split; [|reflexivity].
+    apply andb_true_iff in C. destruct C as [C1 C2]. apply N.eqb_eq in C1. apply del_allowed_spec in C2.
+    destruct C2 as [L1 [L2 L3]].
+    apply (gat_none s _ c to r I) in GT. destruct GT as [T1 T2].
+    destruct (gat_some_cases s _ c from r ft I GF) as [[F1 [F2 F3]]|[F1 F2]]; [|lia].
+    exists period, k. unfold ev_now, ev_sig. rewrite C1 in L1. rewrite F2 in L3.
+    repeat split; auto. }
+  split; [split|]; [apply G| |apply G].
+  intros (period' & k' & E' & G1 & G2 & G3 & S & V & F & T1 & T2 & L1 & L2 & X1 & X2).
+  rewrite E in E'. inversion E'; subst period' k'. unfold ev_now, ev_sig in *.
+  rewrite (delegate_result s (ev_env e) c from to r period lvl k Hn G1 G2 G3).
+  rewrite S, V. simpl.
+  destruct (gat_direct s (e_now (ev_env e)) c from r I F) as [ft [GF [F2 F3]]]. rewrite GF.
+  assert (GT : get_auth_token s (e_now (ev_env e)) c to r = None) by (apply gat_none; auto).
+  rewrite GT. rewrite F3, F2, admin_level_can_delegate, N.eqb_refl. simpl.
+  assert (C : del_allowed lvl DELEGATOR_LEVEL (e_now (ev_env e) + period) AUTH_FUTURE = true).
+  { apply del_allowed_spec. repeat split; auto. }
+  rewrite C. reflexivity.
+Qed.
+End StepLemmas.
+
+(** * List surgery used by delegate / withdraw *)
+Lemma remove_first_none {A} (f : A -> bool) l : remove_first f l = None <-> forall x, In x l -> f x = false.
+Proof.
+  induction l as [|y l IH]; simpl.
+  - split; [intros _ x []|reflexivity].
+  - destruct (f y) eqn:E.
+    + split; [discriminate|]. intro H. specialize (H y (or_introl eq_refl)). congruence.
+    + destruct (remove_first f l) eqn:R; simpl.
+      * split; [discriminate|]. intro H. assert (X : Some l0 = None) by (apply IH; intros x Hx; apply H; right; exact Hx). discriminate X.
+      * split; [|reflexivity]. intros _ x [->|Hx]; [exact E|]. apply IH; [reflexivity|exact Hx].
+Qed.
+
+Lemma remove_first_some {A} (f : A -> bool) l l' : remove_first f l = Some l' ->
+  exists l1 x l2, l = l1 ++ x :: l2 /\ f x = true /\ l' = l1 ++ l2.
+Proof.
+  revert l'; induction l as [|y l IH]; simpl; intros l' H; [discriminate|].
+  destruct (f y) eqn:E.
+  - inversion H; subst. exists [], y, l'. auto.
+  - destruct (remove_first f l) as [l0|] eqn:R; simpl in H; [|discriminate]. inversion H; subst.
+    destruct (IH l0 eq_refl) as [l1 [x [l2 [Ha [Hb Hc]]]]]. subst. exists (y :: l1), x, l2. auto.
+Qed.
+
+Lemma find_app {A} (f : A -> bool) l1 l2 :
+  find f (l1 ++ l2) = match find f l1 with Some x => Some x | None => find f l2 end.
+Proof. induction l1 as [|x l1 IH]; simpl; [reflexivity|]. destruct (f x); [reflexivity|exact IH]. Qed.
+
+Definition has_role (r : bytes) (d : dstat) : bool := bytes_eqb (d_role d) r.
+
+Lemma find_role_none l r : find (has_role r) l = None <-> ~ In r (map d_role l).
+Proof.
+  unfold has_role. rewrite find_none_iff. rewrite in_map_iff. split.
+  - intros H [d [E Hd]]. specialize (H d Hd). rewrite E, bytes_eqb_refl in H. discriminate.
+  - intros H d Hd. apply bytes_eqb_neq. intro E. apply H. exists d. auto.
+Qed.
+
+(** removing the record with role [r] from a list with distinct roles *)
+Lemma find_removed l1 d l2 r' : NoDup (map d_role (l1 ++ d :: l2)) ->
+  find (has_role r') (l1 ++ l2) = if bytes_eqb (d_role d) r' then None else find (has_role r') (l1 ++ d :: l2).
+Proof.
+  intro ND. rewrite map_app in ND. simpl in ND. apply NoDup_remove in ND. destruct ND as [ND Hn].
+  destruct (bytes_eqb (d_role d) r') eqn:E.
+  - apply bytes_eqb_eq in E. subst r'. apply find_role_none. rewrite map_app. exact Hn.
+  - rewrite !find_app. simpl. assert (X : has_role r' d = false) by (unfold has_role; exact E). rewrite X. reflexivity.
+Qed.
+
+Lemma nodup_removed {A} (l1 : list A) x l2 : NoDup (l1 ++ x :: l2) -> NoDup (l1 ++ l2).
+Proof. intro H. apply NoDup_remove in H. tauto. Qed.
+
+(** upd_status *)
+Lemma upd_status_map r from lvl exp l :
+  map d_role (upd_status r from lvl exp l) =
+  if existsb (has_role r) l then map d_role l else map d_role l ++ [r].
+Proof.
+  induction l as [|d l IH]; simpl; [reflexivity|]. unfold has_role at 1.
+  destruct (bytes_eqb (d_role d) r) eqn:E; simpl; [reflexivity|]. rewrite IH.
+  destruct (existsb (has_role r) l); reflexivity.
+Qed.
+
+Lemma upd_status_nodup r from lvl exp l : NoDup (map d_role l) -> NoDup (map d_role (upd_status r from lvl exp l)).
+Proof.
+  intro ND. rewrite upd_status_map. destruct (existsb (has_role r) l) eqn:E; [exact ND|].
+  assert (Hn : ~ In r (map d_role l)).
+  { intro H. apply in_map_iff in H. destruct H as [d [Er Hd]].
+    assert (existsb (has_role r) l = true) by (apply existsb_exists; exists d; split; [exact Hd|unfold has_role; rewrite Er; apply bytes_eqb_refl]).
+    congruence. }
+  clear E. induction l as [|d l IH]; simpl in *.
+  - constructor; [intros []|constructor].
+  - inversion ND; subst. constructor.
+    + rewrite in_app_iff. simpl. intros [H|[H|[]]]; [contradiction|]. apply Hn. left. auto.
+    + apply IH; auto.
+Qed.
+
+Lemma upd_status_in r from lvl exp l d : In d (upd_status r from lvl exp l) ->
+  In d l \/ d = mkDel from (mkTok r exp lvl).
+Proof.
+  induction l as [|x l IH]; simpl.
+  - intros [H|[]]; right; auto.
+  - destruct (bytes_eqb (d_role x) r) eqn:E; simpl.
+    + intros [H|H]; [right; apply bytes_eqb_eq in E; rewrite E in H; auto|left; right; exact H].
+    + intros [H|H]; [left; left; exact H|]. destruct (IH H); [left; right; assumption|right; assumption].
+Qed.
+
+Lemma upd_status_find r from lvl exp l r' :
+  find (has_role r') (upd_status r from lvl exp l) =
+  if bytes_eqb r r' then Some (mkDel from (mkTok r exp lvl)) else find (has_role r') l.
+Proof.
+  induction l as [|x l IH]; simpl.
+  - unfold has_role, d_role; simpl. destruct (bytes_eqb r r'); reflexivity.
+  - destruct (bytes_eqb (d_role x) r) eqn:E; simpl.
+    + apply bytes_eqb_eq in E. unfold has_role, d_role in *; simpl. rewrite E.
+      destruct (bytes_eqb r r'); reflexivity.
+    + unfold has_role in *. destruct (bytes_eqb (d_role x) r') eqn:E2.
+      * apply bytes_eqb_eq in E2. subst r'. rewrite (proj2 (bytes_eqb_neq r (d_role x))); [reflexivity|].
+        intro H. rewrite H, bytes_eqb_refl in E. discriminate.
+      * exact IH.
+Qed.
+
+Section StepLemmas2.
+Variable valid_id : bytes -> bool.
+Notation stp := (step valid_id).
+
+Lemma deleg_of_find s c id r : deleg_of s c id r = find (has_role r) (opt_list (s_deleg s (c, id))).
+Proof. reflexivity. Qed.
+
+(** delegate, unconditional on the time: what an accepted call stores. *)
+Lemma delegate_effect s e c from to r period lvl k : Inv s ->
+  fst (delegate valid_id s e c from to r period lvl k) = RTrue ->
+  exists lvl' exp',
+    0 < lvl' /\ lvl' < DELEGATOR_LEVEL /\ exp' < AUTH_FUTURE /\ holds_direct s c from r = true /\
+    snd (delegate valid_id s e c from to r period lvl k) =
+      set_deleg s (c, to) (upd_status r from lvl' exp' (opt_list (s_deleg s (c, to)))).
+Proof.
+  intros I. unfold delegate.
+  destruct (del_param_too_large lvl period); [discriminate|].
+  destruct (del_entry_too_large period lvl); [discriminate|].
+  destruct (del_overflow (period mod 4294967296) (e_now e)); [discriminate|].
+  destruct (e_sig e from k); try discriminate.
+  destruct (negb (valid_id to)); [discriminate|].
+  destruct (get_auth_token s (e_now e) c from r) as [ft|] eqn:GF; [|discriminate].
+  destruct (get_auth_token s (e_now e) c to r); [discriminate|].
+  destruct ((t_level ft =? DELEGATOR_LEVEL) && _) eqn:C; [|discriminate].
+  intros _. apply andb_true_iff in C. destruct C as [C1 C2]. apply N.eqb_eq in C1. apply del_allowed_spec in C2.
+  destruct C2 as [L1 [L2 L3]].
+  destruct (gat_some_cases s _ c from r ft I GF) as [[F1 [F2 F3]]|[F1 F2]]; [|lia].
+  eexists _, _. simpl. repeat split; [exact L2|rewrite C1 in L1; exact L1|rewrite F2 in L3; exact L3|exact F1].
+Qed.
+
+Lemma withdraw_accept s e c init id r k : Inv s -> ev_op e = OWithdraw c init id r k ->
+  (fst (stp s e) = RTrue <-> ev_sig e init k = SigOk /\ exists d, deleg_of s c id r = Some d /\ d_root d = init) /\
+  (fst (stp s e) = RTrue ->
+     exists l1 d l2, opt_list (s_deleg s (c, id)) = l1 ++ d :: l2 /\ d_role d = r /\
+                     snd (stp s e) = set_deleg s (c, id) (l1 ++ l2)).
+Proof.
+  intros I E. unfold step. rewrite E. unfold withdraw, ev_sig.
+  set (f := fun d : dstat => bytes_eqb (d_role d) r && bytes_eqb (d_root d) init).
+  destruct (e_sig (ev_env e) init k) eqn:S; simpl; [|refused|refused].
+  destruct (get_auth_token s (e_now (ev_env e)) c init r) as [it|] eqn:G; simpl.
+  - destruct (s_deleg s (c, id)) as [l|] eqn:D; simpl.
+    + destruct (remove_first f l) as [l'|] eqn:R; simpl.
+      * apply remove_first_some in R. destruct R as [l1 [d [l2 [A [B C]]]]].
+        unfold f in B. apply andb_true_iff in B. destruct B as [B1 B2]. apply bytes_eqb_eq in B1, B2.
+        split; [split; [intros _; split; [reflexivity|]|reflexivity]|intros _].
+        -- exists d. split; [|exact B2]. rewrite <- B1. apply deleg_of_in; [exact I|]. rewrite D. simpl. rewrite A. apply in_elt.
+        -- exists l1, d, l2. subst. auto.
+      * split; [split; [discriminate|]|discriminate]. intros [_ [d [H1 H2]]]. exfalso.
+        apply deleg_of_some in H1. destruct H1 as [H1 H3]. rewrite D in H1. simpl in H1.
+        rewrite remove_first_none in R. specialize (R d H1). unfold f in R. rewrite H3, H2, !bytes_eqb_refl in R. discriminate.
+    + split; [split; [discriminate|]|discriminate]. intros [_ [d [H1 H2]]]. exfalso.
+      apply deleg_of_some in H1. destruct H1 as [H1 _]. rewrite D in H1. exact H1.
+  - split; [split; [discriminate|]|discriminate]. intros [_ [d [H1 H2]]]. exfalso.
+    apply deleg_of_some in H1. destruct H1 as [H1 H3].
+    destruct (inv_delegs s c id I) as [_ F]. rewrite Forall_forall in F. destruct (F d H1) as [_ [_ [_ HD]]].
+    rewrite H2, H3 in HD. destruct (gat_direct s (e_now (ev_env e)) c init r I HD) as [t [GT _]]. congruence.
+Qed.
+End StepLemmas2.
+
+(** * assignToRole: one person, then the loop *)
+Definition new_tok (r : bytes) : token := mkTok r AUTH_FUTURE ADMIN_TOKEN_LEVEL.
+
+Lemma assign_one_other now c r s p k : k <> (c, p) -> s_tokens (assign_one now c r s p) k = s_tokens s k.
+Proof.
+  intro H. unfold assign_one. destruct (s_tokens s (c, p)); [destruct (get_auth_token s now c p r)|]; simpl;
+    try reflexivity; apply fput_other; exact H.
+Qed.
+
+Lemma assign_one_deleg now c r s p : s_deleg (assign_one now c r s p) = s_deleg s.
+Proof. unfold assign_one. destruct (s_tokens s (c, p)); [destruct (get_auth_token s now c p r)|]; reflexivity. Qed.
+Lemma assign_one_funcs now c r s p : s_funcs (assign_one now c r s p) = s_funcs s.
+Proof. unfold assign_one. destruct (s_tokens s (c, p)); [destruct (get_auth_token s now c p r)|]; reflexivity. Qed.
+Lemma assign_one_admin now c r s p : s_admin (assign_one now c r s p) = s_admin s.
+Proof. unfold assign_one. destruct (s_tokens s (c, p)); [destruct (get_auth_token s now c p r)|]; reflexivity. Qed.
+
+(** at the person's own key: either unchanged (blocked, or the role is already held), or the
+    new token is appended *)
+Lemma assign_one_self now c r s p : Inv s ->
+  (blocked s now c p r /\ s_tokens (assign_one now c r s p) (c, p) = s_tokens s (c, p)) \/
+  (holds_direct s c p r = true /\ s_tokens (assign_one now c r s p) (c, p) = s_tokens s (c, p)) \/
+  (~ blocked s now c p r /\ holds_direct s c p r = false /\
+   s_tokens (assign_one now c r s p) (c, p) = Some (opt_list (s_tokens s (c, p)) ++ [new_tok r])).
+Proof.
+  intro I. unfold assign_one.
+  destruct (s_tokens s (c, p)) as [ts|] eqn:T.
+  - destruct (get_auth_token s now c p r) as [t|] eqn:G.
+    + destruct (gat_some_cases s now c p r t I G) as [[H _]|[H _]].
+      * right; left. split; [exact H|exact T].
+      * left. split; [|exact T]. unfold blocked, has_token_record. rewrite T. repeat split; auto.
+        destruct (gat_none s now c p r I) as [_ X].
+        destruct (find_live_none s now c p r I) as [_ Y].
+        unfold get_auth_token in G. apply holds_direct_false in H. rewrite H in G.
+        destruct (find (del_live_role now r) (opt_list (s_deleg s (c, p)))) as [d|] eqn:F; [|discriminate].
+        apply find_some in F. destruct F as [F1 F2]. unfold del_live_role in F2. apply andb_true_iff in F2.
+        destruct F2 as [F2 F3]. apply bytes_eqb_eq in F2. exists d. split.
+        -- rewrite <- F2. apply deleg_of_in; assumption.
+        -- apply gat_deleg_live_spec. exact F3.
+    + apply (gat_none s now c p r I) in G. destruct G as [G1 G2]. right; right.
+      repeat split; auto.
+      * intros [_ [_ B]]. contradiction.
+      * simpl. rewrite fput_same. reflexivity.
+  - right; right. repeat split.
+    + intros [B _]. unfold has_token_record in B. rewrite T in B. discriminate.
+    + unfold holds_direct. rewrite T. reflexivity.
+    + simpl. rewrite fput_same. reflexivity.
+Qed.
+
+Lemma holds_direct_app s s' c id r extra :
+  s_tokens s' (c, id) = Some (opt_list (s_tokens s (c, id)) ++ extra) ->
+  holds_direct s' c id r = holds_direct s c id r || existsb (tok_has_role r) extra.
+Proof. intro H. unfold holds_direct. rewrite H. simpl. apply existsb_app. Qed.
+
+Lemma assign_one_direct now c r s p c' id' r' : Inv s ->
+  (holds_direct (assign_one now c r s p) c' id' r' = true <->
+   holds_direct s c' id' r' = true \/ (c' = c /\ id' = p /\ r' = r /\ ~ blocked s now c p r)).
+Proof.
+  intro I. destruct (key_eq_dec (c', id') (c, p)) as [E|NE].
+  - inversion E; subst c' id'.
+    destruct (assign_one_self now c r s p I) as [[B T]|[[H T]|[NB [H T]]]].
+    + rewrite (holds_direct_ext _ _ _ _ _ T). split; [auto|intros [X|[_ [_ [_ X]]]]; [exact X|contradiction]].
+    + rewrite (holds_direct_ext _ _ _ _ _ T). split; [auto|intros [X|[_ [_ [X _]]]]; [exact X|subst; exact H]].
+    + rewrite (holds_direct_app _ _ _ _ _ _ T). simpl. rewrite orb_false_r, orb_true_iff. unfold tok_has_role, new_tok. simpl.
+      rewrite bytes_eqb_eq. split; [intros [X|X]; [left; exact X|right; auto]|intros [X|[_ [_ [X _]]]]; auto].
+  - rewrite (holds_direct_ext s _ c' id' r' (assign_one_other now c r s p (c', id') NE)).
+    split; [auto|intros [X|[A [B _]]]; [exact X|subst; contradiction]].
+Qed.
+
+Lemma tokens_ok_app ts r : tokens_ok ts -> tokens_ok (ts ++ [new_tok r]).
+Proof. intro H. apply Forall_app. split; [exact H|]. constructor; [split; reflexivity|constructor]. Qed.
+
+Lemma tokens_ok_opt s c id : Inv s -> tokens_ok (opt_list (s_tokens s (c, id))).
+Proof.
+  intros [I1 _]. destruct (s_tokens s (c, id)) as [ts|] eqn:E; simpl; [apply (I1 _ _ _ E)|constructor].
+Qed.
+
+Lemma assign_one_mono now c r s p c' id' r' : Inv s ->
+  holds_direct s c' id' r' = true -> holds_direct (assign_one now c r s p) c' id' r' = true.
+Proof. intros I H. apply assign_one_direct; auto. Qed.
+
+Lemma assign_one_inv now c r s p : Inv s -> Inv (assign_one now c r s p).
+Proof.
+  intro I. split.
+  - intros c' id' ts H. destruct (key_eq_dec (c', id') (c, p)) as [E|NE].
+    + inversion E; subst c' id'.
+      destruct (assign_one_self now c r s p I) as [[_ T]|[[_ T]|[_ [_ T]]]]; rewrite T in H.
+      * destruct I as [I1 _]. apply (I1 _ _ _ H).
+      * destruct I as [I1 _]. apply (I1 _ _ _ H).
+      * inversion H; subst ts. apply tokens_ok_app. apply tokens_ok_opt. exact I.
+    + rewrite (assign_one_other now c r s p (c', id') NE) in H. destruct I as [I1 _]. apply (I1 _ _ _ H).
+  - intros c' id' ds H. rewrite assign_one_deleg in H. destruct I as [I1 I2].
+    destruct (I2 _ _ _ H) as [ND F]. split; [exact ND|].
+    rewrite Forall_forall in *. intros d Hd. destruct (F d Hd) as [A [B [C D]]]. repeat split; auto.
+    apply assign_one_mono; [split; assumption|exact D].
+Qed.
+
+Lemma assign_fold_inv now c r ps s : Inv s -> Inv (fold_left (assign_one now c r) ps s).
+Proof. revert s; induction ps as [|p ps IH]; simpl; intros s I; [exact I|]. apply IH. apply assign_one_inv. exact I. Qed.
+
+Lemma assign_fold_deleg now c r ps s : s_deleg (fold_left (assign_one now c r) ps s) = s_deleg s.
+Proof. revert s; induction ps as [|p ps IH]; simpl; intro s; [reflexivity|]. rewrite IH. apply assign_one_deleg. Qed.
+Lemma assign_fold_funcs now c r ps s : s_funcs (fold_left (assign_one now c r) ps s) = s_funcs s.
+Proof. revert s; induction ps as [|p ps IH]; simpl; intro s; [reflexivity|]. rewrite IH. apply assign_one_funcs. Qed.
+Lemma assign_fold_admin now c r ps s : s_admin (fold_left (assign_one now c r) ps s) = s_admin s.
+Proof. revert s; induction ps as [|p ps IH]; simpl; intro s; [reflexivity|]. rewrite IH. apply assign_one_admin. Qed.
+
+Lemma assign_fold_direct now c r ps s c' id' r' : Inv s ->
+  (holds_direct (fold_left (assign_one now c r) ps s) c' id' r' = true <->
+   holds_direct s c' id' r' = true \/ (c' = c /\ r' = r /\ In id' ps /\ ~ blocked s now c id' r)).
+Proof.
+  revert s; induction ps as [|p ps IH]; simpl; intros s I.
+  - split; [auto|intros [H|[_ [_ [[] _]]]]; exact H].
+  - rewrite (IH _ (assign_one_inv now c r s p I)), (assign_one_direct now c r s p c' id' r' I).
+    assert (BE : forall q, q <> p -> (blocked (assign_one now c r s p) now c q r <-> blocked s now c q r)).
+    { intros q Hq. apply blocked_ext; [rewrite assign_one_deleg; reflexivity|].
+      apply assign_one_other. intro X; inversion X; contradiction. }
+    split.
+    + intros [[H|[A [B [C D]]]]|[A [B [C D]]]].
+      * left; exact H.
+      * right. subst. auto.
+      * subst c' r'. destruct (bytes_eq_dec id' p) as [->|NE].
+        -- destruct (assign_one_self now c r s p I) as [[BL T]|[[H T]|[NB _]]].
+           ++ exfalso. apply D. apply (blocked_ext s); [rewrite assign_one_deleg; reflexivity|exact T|exact BL].
+           ++ left; exact H.
+           ++ right; auto.
+        -- right. repeat split; auto. intro X. apply D. apply BE; assumption.
+    + intros [H|[A [B [[C|C] D]]]].
+      * left; left; exact H.
+      * subst. left; right; auto.
+      * subst c' r'. destruct (bytes_eq_dec id' p) as [->|NE].
+        -- left; right; auto.
+        -- right. repeat split; auto. intro X. apply D. apply BE; assumption.
+Qed.
